@@ -12,6 +12,7 @@ import MajoranaVerif.Model.Parser
 import MajoranaVerif.Model.SeqMachine
 import MajoranaVerif.Model.Mvp3
 import MajoranaVerif.Model.Mvp4
+import MajoranaVerif.Model.Mvp5
 
 namespace Driver.Run
 
@@ -66,12 +67,17 @@ def seqModels (progBytes : List UInt8) (regs : Array (BitVec 32)) (mem : Array (
       let same := fr == spec.final.regs.toList && r.final.ctx.Memory == spec.final.mem.toList
       let cyc := match r.halt with | some .err => 0 | _ => r.cycles
       s!"{showHalt r.halt},{cyc},{r.steps},{if same then "same" else "DIFF"}"
+    let one5 (r : Model.Mvp5.Result) : String :=
+      let fr := (List.range 32).map fun k => GoInt.GoMap.get1 r.final.base.ctx.Registers k
+      let same := fr == spec.final.regs.toList && r.final.base.ctx.Memory == spec.final.mem.toList
+      let cyc := match r.halt with | some .err => 0 | _ => r.final.base.cycles
+      s!"{showHalt r.halt},{cyc},{r.final.base.executed},{if same then "same" else "DIFF"}"
     let one4 (r : Model.Mvp4.Result) : String :=
       let fr := (List.range 32).map fun k => GoInt.GoMap.get1 r.final.ctx.Registers k
       let same := fr == spec.final.regs.toList && r.final.ctx.Memory == spec.final.mem.toList
       let cyc := match r.halt with | some .err => 0 | _ => r.final.cycles
       s!"{showHalt r.halt},{cyc},{r.final.executed},{if same then "same" else "DIFF"}"
-    s!"m1={one (Model.Seq.runMvp1 app ⟨ctx, 0⟩ fuel)} m2={one (Model.Seq.runMvp2 app ⟨ctx, 0⟩ fuel)} m3={one (Model.Mvp3.runMvp3 app ⟨ctx, 0⟩ fuel).toSeq} h3={if Model.Mvp3.wfAccesses app ⟨ctx, 0⟩ fuel then 1 else 0} m4={one4 (Model.Mvp4.run app ctx (32 * Gen.Latency.MemoryAccess.toNat * (spec.steps + 64)))}"
+    s!"m1={one (Model.Seq.runMvp1 app ⟨ctx, 0⟩ fuel)} m2={one (Model.Seq.runMvp2 app ⟨ctx, 0⟩ fuel)} m3={one (Model.Mvp3.runMvp3 app ⟨ctx, 0⟩ fuel).toSeq} h3={if Model.Mvp3.wfAccesses app ⟨ctx, 0⟩ fuel then 1 else 0} m4={one4 (Model.Mvp4.run app ctx (32 * Gen.Latency.MemoryAccess.toNat * (spec.steps + 64)))} m5={one5 (Model.Mvp5.run app ctx (32 * Gen.Latency.MemoryAccess.toNat * (spec.steps + 64)))}"
 
 /-- `run id ; family=.. fuel=N memsize=M ; regs=r:v,.. ; mem=<hex> ; prog=<hex>` -/
 def run (line : String) : String :=
